@@ -130,6 +130,22 @@ def job(spec):
                                 continue
                             e["delmat"] = dmat
                         evs.append(e)
+                # the valid-samples variant at its boundary: a block of EXACTLY span + 1 samples has one valid column
+                steps = b["dmsteps"][0]
+                dmat = [[int(x) for x in np.atleast_1d(fil.header.get_dmdelays(dmi))] for dmi in (dm + np.linspace(-dm, dm, steps))]
+                span = max(max(map(max, dmat)), 0) - min(min(map(min, dmat)), 0)
+                if 0 < span < n:
+                    sub = fil.read_block(0, span + 1)
+                    oc, r = _call(lambda: sub.dmt_transform(dm, dmsteps=steps, only_valid_samples=True))
+                    e = dict(base, a="path", path="dmtvalid", p=pp, r=rr, X=[row[: span + 1] for row in X], s=0, m=0, outcome=oc, out=[[0]], nhdr=-1,
+                             delmat=dmat)
+                    e["del"] = dl
+                    e["n"] = span + 1
+                    if r is not None:
+                        e["out"] = _mat(r.data)
+                        e["nhdr"] = int(r.header.nsamples)
+                        e["delmat"] = [[int(x) for x in np.atleast_1d(fil.header.get_dmdelays(float(dmi)))] for dmi in np.atleast_1d(r.dms)]
+                    evs.append(e)
         fil._file.close()
     return evs
 
